@@ -166,7 +166,11 @@ def loop_body_nodes(head):
         stack.extend(getattr(sub, '_inline_body', None) or [])
     out = set()
     for node in C.reach([head]):
-        if node is head or node.ast is None:
+        if node is head:
+            continue
+        if node.ast is None:
+            if head in getattr(node, 'loops', ()):
+                out.add(node)
             continue
         if id(node.ast) in inside:
             out.add(node)
@@ -256,12 +260,12 @@ def tolerance_polarity(ctx, rule, func, allowed=None):
         # tolerated: some way on to the normal exit (it may still raise under
         # a further test - "exists, but owned by somebody else"); anything
         # else: no way on without a raise
-        ok = all(e.dst not in raises and find_path(
-            e.dst, [graph.exit], cut_node=lambda n: n in raises,
-            follow_exc=False) is not None for e in benign) and all(
-                e.dst in raises or find_path(
-                    e.dst, [graph.exit], cut_node=lambda n: n in raises,
-                    follow_exc=False) is None for e in other)
+        def goes_on(node):
+            return node is graph.exit or (node not in raises and find_path(
+                node, [graph.exit], cut_node=lambda n: n in raises,
+                follow_exc=False) is not None)
+        ok = all(goes_on(e.dst) for e in benign) and \
+            not any(goes_on(e.dst) for e in other)
         ctx.ob(rule, func, test, ok,
                'exactly %s is tolerated: that outcome does not re-raise, '
                'every other error does' % codes[0],
